@@ -11,6 +11,7 @@ import ZV.Model.Graph
 import ZV.Model.GraphSpec
 import ZV.Props.C08Statements
 import ZV.Proofs.Kosaraju
+import ZV.Proofs.SccDrain
 
 namespace ZV.Props.C08
 open ZV.Graph
@@ -41,5 +42,24 @@ theorem kosaraju_total : Statement.kosaraju_total := ZV.Graph.kosaraju_total_pf
 /-- Kosaraju's labelling is exactly the strongly connected components, whatever the hash-map
 iteration order. -/
 theorem kosaraju_correct : Statement.kosaraju_correct := ZV.Graph.kosaraju_correct_pf
+
+/-- Draining `top`/`release` to exhaustion never hits an `unreachable!`, terminates, and yields
+every strongly connected component exactly once, dependencies first — any graph, any iteration
+order. -/
+theorem drain_deps_first : Statement.drain_deps_first :=
+  ZV.Graph.drain_deps_first_pf kosaraju_total kosaraju_correct
+
+/-- Piecemeal (one id at a time) release is safe. -/
+theorem release_piecemeal_safe : Statement.release_piecemeal_safe :=
+  ZV.Graph.release_piecemeal_safe_pf kosaraju_total kosaraju_correct
+
+/-- The order handed to block elaboration is a dependency-respecting decomposition into strongly
+connected components with the right `recursive` classification. -/
+theorem context_order_valid : Statement.context_order_valid :=
+  ZV.Graph.context_order_valid_pf kosaraju_total kosaraju_correct
+
+/-- **Determinism**: that order does not depend on hash-map iteration order. -/
+theorem topo_deterministic : Statement.topo_deterministic :=
+  ZV.Graph.topo_deterministic_pf kosaraju_total kosaraju_correct
 
 end ZV.Props.C08
